@@ -306,5 +306,5 @@ def tasks(ctx):
     t = []
     for sh in range(NSHARDS):
         t.append((task_matrix, dict(shard=sh)))
-        t.append((task_user, dict(shard=sh, n=ctx.pick(120, 2500))))
+        t.append((task_user, dict(shard=sh, n=ctx.pick(400, 2500))))
     return t
